@@ -1406,6 +1406,10 @@ impl Sim {
         if applied == 0 {
             self.probes.hit("corrupt_no_fault_applicable");
         }
+        if self.verbose {
+            let _t = arena::tag_scope(arena::TAG_HARNESS);
+            eprintln!("corrupted stream ({applied} faults applied): {}", medium::render(&stream));
+        }
         let (created0, _) = ledger::totals();
         let live0 = ledger::live_count();
         let anon0: Vec<i64> = (0..ledger::NTYPES as u8).map(ledger::anon_live).collect();
@@ -1419,6 +1423,9 @@ impl Sim {
             }
             Err(c) => Err(unexpected(c, "World::deserialize of a corrupted stream", "C11")),
             Ok(Err(_e)) => {
+                if self.verbose {
+                    eprintln!("rejected: {_e}");
+                }
                 self.probes.hit("corrupt_rejected");
                 let (created1, _) = ledger::totals();
                 if created1 > created0 {
